@@ -482,6 +482,20 @@ func runC07(r *run) {
 			gargs = append(gargs, a.k, a.v)
 			gattrs = append(gattrs, slog.Int(a.k, a.v))
 		}
+		if i%5 == 2 {
+			// members already in ascending key order, with keys repeated next to each other: still one member per key, the last
+			sort.SliceStable(pairs, func(a, b int) bool { return pairs[a].k < pairs[b].k })
+			if len(pairs) >= 2 && g.chance(2, 3) {
+				pairs[len(pairs)-1].k = pairs[len(pairs)-2].k
+				pairs = append(pairs, kvp{pairs[0].k, next()})
+				sort.SliceStable(pairs, func(a, b int) bool { return pairs[a].k < pairs[b].k })
+			}
+			gargs, gattrs = nil, nil
+			for _, a := range pairs {
+				gargs = append(gargs, a.k, a.v)
+				gattrs = append(gattrs, slog.Int(a.k, a.v))
+			}
+		}
 		if i%2 == 0 {
 			l.Info("group-probe", slog.Group("grp", gargs...))
 		} else {
